@@ -188,6 +188,28 @@ class Ctx:
         self.failures.extend(new_failures)
         return new_failures
 
+    def run_corpus(self, ops):
+        """minimised past failures and hand-written corner cases (corpus/<id>/*.json) run first"""
+        d = os.path.join(VERIF, "corpus", self.pid)
+        if not os.path.isdir(d):
+            return
+        by_op = {}
+        for fn in sorted(os.listdir(d)):
+            if fn.endswith(".json"):
+                rec = json.load(open(os.path.join(d, fn)))
+                for r in (rec if isinstance(rec, list) else [rec]):
+                    if r.get("op") in ops and "input" in r:
+                        by_op.setdefault(r["op"], []).append(r["input"])
+        for name, inputs in by_op.items():
+            self.run_cases(ops[name], inputs)
+            self.tally("corpus:" + name, len(inputs))
+
+    def contract(self, name, ok, inp=None, observed=None, detail=""):
+        """a monitored assumption about an unmodelled library call (hypothesis of a theorem)"""
+        self.tally("contract:" + name)
+        if not ok:
+            self.fail("contract", name, inp=inp, impl=observed, detail=detail or f"library contract {name} violated")
+
     def fail(self, kind, op, inp=None, impl=None, model=None, detail="", extra=None):
         f = Failure(kind, op, inp, impl, model, detail, extra)
         self.failures.append(f)
